@@ -5691,7 +5691,12 @@ def merge_parts(parts, reassign="voice"):
     # an object may be on the timeline by its end only (e.g. a slur whose start
     # is not in the score): iter_all() does not reach it through a start
     end_only = [
-        [e for e in part.iter_all(mode="ending") if e.start is None] for part in parts
+        [
+            e
+            for e in part.iter_all(TimedObject, include_subclasses=True, mode="ending")
+            if e.start is None
+        ]
+        for part in parts
     ]
     # find the unique number of voices for each part
     unique_voices = [
